@@ -58,10 +58,25 @@ def standin_clifford_circuits(tier, seed):
             cirq.act_on(op, ch)
         if not np.allclose(ch.state.state_vector(), psi, atol=1e-6):
             fails.append(dict(args=dict(circuit=repr(c)), failed="ch-form", clause="CH-form state vector (incl. global phase) differs from the matrix product"))
-        # Clifford simulator front end
-        r = cirq.CliffordSimulator().simulate(c, qubit_order=qs)
-        if not np.allclose(r.final_state.state_vector(), psi, atol=1e-6):
-            fails.append(dict(args=dict(circuit=repr(c)), failed="clifford-simulator", clause="CliffordSimulator final state differs from the matrix product"))
+        # Clifford simulator front end (joint state and the per-qubit split that is merged / reordered at the end)
+        for split in (False, True):
+            r = cirq.CliffordSimulator(split_untangled_states=split).simulate(c, qubit_order=qs)
+            if not np.allclose(r.final_state.state_vector(), psi, atol=1e-6):
+                fails.append(dict(args=dict(circuit=repr(c), split_untangled_states=split), failed="clifford-simulator", clause=f"CliffordSimulator(split_untangled_states={split}) final state differs from the matrix product"))
+        # reordering the qubits of the CH form and of the tableau state = transposing the state vector
+        if n >= 2:
+            perm = rng.sample(range(n), n)
+            ch2 = ch.state.copy().reindex(perm)
+            want = np.transpose(psi.reshape((2,) * n), perm).reshape(-1)
+            if not np.allclose(ch2.state_vector(), want, atol=1e-6):
+                fails.append(dict(args=dict(circuit=repr(c), axes=perm), failed="ch-form-reindex", clause="StabilizerStateChForm.reindex(axes) is not the state with its qubits in the order `axes`"))
+            try:
+                tq = [qs[i] for i in perm]
+                st2 = st.copy().transpose_to_qubit_order(tq)
+                if not _stabilizes(st2.tableau, want, tq):
+                    fails.append(dict(args=dict(circuit=repr(c), axes=perm), failed="tableau-reorder", clause="transpose_to_qubit_order of the tableau state does not stabilize the transposed state"))
+            except (AttributeError, NotImplementedError):
+                pass
         if len(fails) >= 3:
             break
     return dict(function="cirq-core/cirq/sim/clifford + ops/clifford_gate.py[act_on vs matrices]", case="clifford-circuits",
